@@ -9,7 +9,8 @@ THEOREMS = ["GrpcProofs.C33." + t for t in (
     "swap_rule", "swap_effect", "old_picker_used_while_old_ready_and_new_connecting",
     "channel_has_latest_state_of_policy_in_use", "no_update_from_closed_or_superseded",
     "closed_or_superseded_policy_is_silent", "subconns_of_closed_child_shut_down",
-    "replaced_pending_is_closed", "pending_is_connecting_and_has_a_current", "close_closes_everything")]
+    "late_subconn_of_closed_policy_shut_down", "replaced_pending_is_closed", "pending_is_connecting_and_has_a_current",
+    "close_closes_everything")]
 DESIGN_REF = "DESIGN.md section 8, C33"
 TECHNIQUE = ("Lean 4 theorems (invariants by induction over op lists, case analysis of the swap rule) about a full port of the "
              "mutex-protected gracefulswitch state machine + T2 differential correspondence on the real gracefulswitch.Balancer "
@@ -18,18 +19,22 @@ LEVEL_TEXT = ("Machine-checked Lean proofs, for every sequence of switches (incl
               "state reports from current, pending, closed and superseded policies, SubConn creation/state/shutdown, resolver "
               "errors and Close: the exact swap rule in both directions, that the channel always holds the latest state of the "
               "policy in use, that no update of a policy that is not current reaches the channel, that closing a policy shuts "
-              "down every SubConn it created and still owns, and that a replaced pending policy is closed on the spot.")
+              "down every SubConn it created and still owns, that a replaced pending policy is closed on the spot, and that a NewSubConn "
+              "call still inside the parent ClientConn when its policy loses its role ends with the SubConn shut down and an error.")
 LEVEL_NOTE = ("Trusted: Lean kernel; hand model lean/GrpcModel/Model/GracefulSwitch.lean tied by differential runs. Readings: "
               "'as soon as … the old one leaves READY' is event-driven in the code and in the theorems: the swap is decided when "
               "a policy REPORTS; a switch started while the old policy is already not READY completes at the next report of "
               "either policy (swap_rule covers exactly that). The picker of a wrapper that never reported is anonymous "
               "(base.NewErrPicker): its owner is not observable and is taken from the model.")
-GAP = ("real concurrency between UpdateState callers and channel calls (serialised by gsb.mu/currentMu: ops are atomic here); the "
-       "'closed during NewSubConn' window; Build returning nil is generated, children calling back from other goroutines are not")
+GAP = ("real concurrency between UpdateState callers and channel calls (serialised by gsb.mu/currentMu: ops are atomic at the grain "
+       "of the mutex); NewSubConn is split where it releases gsb.mu (a call held inside the parent ClientConn while the policy is "
+       "swapped out/closed); Build returning nil is generated")
 ASSUMPTIONS = ["children are identified by build order", "an op = one call into the balancer followed by quiescence of the close goroutine"]
 RULE = ("random op sequences (<= 60 ops): switch / UpdateClientConnState with and without a gracefulswitch config (4 builder "
         "names, inline Build and UpdateClientConnState scripts: report a state, create a SubConn, return nil / an error), state "
         "reports R/C/I/T/S from any child ever built (biased to the newest three: current, pending, just superseded), NewSubConn, "
+        "NewSubConn calls issued from the policy's own goroutine and held inside the parent ClientConn while anything else happens "
+        "(random, plus a directed family: the caller loses its role by swap / replacement / Close, or keeps it, before the call returns), "
         "SubConn state via listener and via the deprecated UpdateSubConnState, direct Shutdown, ResolveNow, UpdateAddresses, "
         "ResolverError, ExitIdle, Close (then more ops). Non-trivial: at least one swap-rule decision with a pending policy.")
 
@@ -54,6 +59,7 @@ def gen_case(rng, maxlen, ci):
     bias = rng.choice(["RC", "RCIT", "RRRC", "CCCR", "RCITS", "TI"])
     last_name = None
     closed = False
+    held = []
     for _ in range(rng.randrange(3, maxlen)):
         x = rng.random()
         kid = lambda: max(1, builds - rng.choice([0, 0, 0, 1, 1, 2, rng.randrange(0, builds + 1)])) if builds else 1
@@ -69,8 +75,13 @@ def gen_case(rng, maxlen, ci):
                 builds += 1; last_name = nm
         elif x < 0.62:
             ops.append("st %d %s" % (kid(), rng.choice(bias)))
-        elif x < 0.74:
+        elif x < 0.70:
             ops.append("nsc %d" % kid()); scs += 1
+        elif x < 0.74:
+            # a NewSubConn call from the policy's own goroutine, held inside the parent ClientConn; released later
+            ops.append("nscb %d" % kid()); scs += 1; held.append(scs)
+        elif x < 0.78 and held:
+            ops.append("nsce %d" % held.pop(rng.randrange(len(held))))
         elif x < 0.82 and scs:
             ops.append("%s %d %s" % (rng.choice(["scst", "scst", "uscs"]), rng.randrange(1, scs + 1), rng.choice("RCITSS")))
         elif x < 0.85 and scs:
@@ -101,6 +112,15 @@ def directed():
     # switch while the old policy is not READY: completes at the next report
     yield Case("s_gsw", ["switch 0 st:C", "switch 1 -", "st 2 C"], "old-not-ready")
     yield Case("s_gsw", ["reserr", "ucc 1 st:R -", "ucc 1 - st:T", "ucc 2 nil -", "ucc 2 st:C err", "ucc - - -", "close", "ucc 3 - -", "ucc - - -", "reserr"], "ucc")
+    # a NewSubConn call of policy X is inside the parent ClientConn while X loses its role in every possible way (swap by the
+    # pending's report, swap by its own report, replaced as pending, Close) or keeps it; then the call returns
+    k = 0
+    for role in ("cur", "pend"):
+        for lose in (["st 2 R"], ["st 1 T"], ["switch 2 -"], ["close"], ["st 2 C"], ["st 1 R"], ["nsc 1", "nsc 2"]):
+            pre = ["switch 0 st:R", "nsc 1", "switch 1 nsc"]
+            who = "1" if role == "cur" else "2"
+            yield Case("s_gsw", pre + ["nscb " + who] + lose + ["nsce 3", "scst 3 R", "st 1 I", "st 2 I", "close"], "held-nsc-%d" % k)
+            k += 1
     yield Case("s_gsw", ["switch 0 nil", "switch 1 st:R", "switch 2 nil", "st 2 R", "switch 3 st:T", "exitidle", "rn 2", "rn 4"], "build-nil")
 
 
